@@ -8,6 +8,7 @@ import (
 
 	"verif/harness/mon"
 	"verif/harness/sim"
+	"verif/harness/storechk"
 )
 
 // ---- history runner -------------------------------------------------------------------------------
@@ -48,6 +49,8 @@ func monitorsFor(prop string, seed uint64, idx *sim.TxIndex) []sim.Monitor {
 		return []sim.Monitor{mon.NewC10()}
 	case "C11":
 		return []sim.Monitor{mon.C11{}}
+	case "C14":
+		return []sim.Monitor{mon.NewC14()}
 	case "C17":
 		return []sim.Monitor{mon.C17{}}
 	}
@@ -148,6 +151,16 @@ func foldEnv(c *Ctx, prop, caseID, profName string, e *sim.Env, nontrivialKeys [
 
 func replayHistory(prop string) func(c *Ctx, raw json.RawMessage) {
 	return func(c *Ctx, raw json.RawMessage) {
+		if prop == "C14" {
+			var ms struct {
+				H     *storechk.MSHist `json:"multistore"`
+				QSeed uint64           `json:"qseed"`
+			}
+			if json.Unmarshal(raw, &ms) == nil && ms.H != nil {
+				storechk.RunC14(ms.H, sim.NewRand(ms.QSeed), &caseReporter{c: c, caseID: "replay", replay: raw})
+				return
+			}
+		}
 		var hr histReplay
 		if err := json.Unmarshal(raw, &hr); err != nil {
 			c.Res.Inconcl = append(c.Res.Inconcl, "bad replay: "+err.Error())
@@ -259,6 +272,25 @@ func profileFor(prop string, r *sim.Rand, i int, quick bool) sim.Profile {
 		p.W["bytes"] = 20
 		p.ReadsPct, p.HostilePct, p.ProbePct = 45, 40, 30
 		p.MaxTx = 8
+	case "C14":
+		p.QueryHeavy = true
+		p.ReadsPct = 70
+		p.Blocks = 60
+		if !quick {
+			p.Blocks = 200
+		}
+		switch r.Intn(5) {
+		case 0:
+			p.Pruning = &[2]int64{0, 1}
+		case 1:
+			p.Pruning = &[2]int64{2, 3}
+		case 2:
+			p.Pruning = &[2]int64{5, 0}
+		case 3:
+			p.Pruning = &[2]int64{3, 7}
+		case 4:
+			p.Pruning = nil
+		}
 	case "C17":
 		p.W["govparam"], p.W["dao"], p.W["acl"], p.W["upgrade"] = 30, 20, 10, 6
 		p.HostilePct = 15
@@ -269,6 +301,9 @@ func profileFor(prop string, r *sim.Rand, i int, quick bool) sim.Profile {
 
 func appRun(prop string, nontrivial []string) func(c *Ctx) {
 	return func(c *Ctx) {
+		if prop == "C14" {
+			runC14MS(c)
+		}
 		n := 48
 		if !c.Quick() {
 			n = 16 * 40
@@ -341,6 +376,8 @@ func init() {
 		[]string{"c10.nonzero_fee_blocks", "c10.award_blocks"}, map[string]int64{"c10.nonzero_fee_blocks": 200, "c10.award_blocks": 100, "c10.fee_blocks_unknown_proposer": 10}, false)
 	reg("C11", "one case = one generated history with hostile bytes and read-only traffic; non-trivial = contains a rejected DeliverTx or a read-only call; distinct by hash of the request log",
 		[]string{"c11.rejected_delivers", "c11.readonly.query"}, map[string]int64{"c11.rejected_delivers": 500, "c11.readonly.query": 300, "c11.readonly.check": 100}, false)
+	reg("C14", "one case = one generated history with store-key queries (with and without proof) issued at every call boundary, including between the transactions of a block; non-trivial = at least one proof verified; distinct by hash of the request log",
+		[]string{"c14.proofs_verified"}, map[string]int64{"c14.proofs_verified": 300, "c14.queries.pruned": 100, "c14.queries.future": 100, "c14.absent_keys": 200, "c14.queries_inside_block": 500, "c14.queries_on_key_with_pending_write": 10, "c14.proofs_cross_checked": 300}, false)
 	reg("C17", "one case = one generated history with governance traffic; non-trivial = at least one governance message was judged; distinct by hash of the request log",
 		[]string{"c17.gov_success", "c17.gov_rejected", "c17.dao_rejected"}, map[string]int64{"c17.param_changes": 50, "c17.gov_rejected_non_owner": 30, "c17.dao_success.dao_transfer": 10}, false)
 }
